@@ -78,3 +78,74 @@ proof fn lemma_root_live(st: Seq<State>, lm: bool)
     let w = bw_wit(st, lm);
     assert(da_ranked(st, lm, w));
 }
+
+// ---- C13, the 2n bound: fail moves per transition and over a whole scan (standard automaton) ----
+// number of fail-link moves next_state_id_unchecked makes from state s on byte c
+spec fn bw_fsteps(st: Seq<State>, s: int, c: u8) -> nat
+    decreases bw_rank(st, false, s)
+    when bw_wf(st, false) && bw_live(st, false, s)
+{
+    match bw_child(st, s, c) {
+        Some(_) => 0,
+        None => if s == 0 { 0 } else { 1 + bw_fsteps(st, st[s].fail as int, c) },
+    }
+}
+proof fn lemma_delta_live(st: Seq<State>, s: int, c: u8)
+    requires bw_wf(st, false), bw_live(st, false, s),
+    ensures bw_live(st, false, bw_delta(st, s, c)),
+    decreases bw_rank(st, false, s),
+{
+    let w = bw_wit(st, false);
+    assert(da_ranked(st, false, w));
+    match bw_child(st, s, c) {
+        Some(t) => { assert(w.live.contains(bw_child(st, s, c).unwrap() as int)); }
+        None => { if s != 0 { lemma_delta_live(st, st[s].fail as int, c); } }
+    }
+}
+// potential argument for one transition: fail moves are paid for by depth
+proof fn lemma_fsteps_rank(st: Seq<State>, s: int, c: u8)
+    requires bw_wf(st, false), bw_live(st, false, s),
+    ensures bw_fsteps(st, s, c) + bw_rank(st, false, bw_delta(st, s, c)) <= bw_rank(st, false, s) + 1,
+    decreases bw_rank(st, false, s),
+{
+    let w = bw_wit(st, false);
+    assert(da_ranked(st, false, w));
+    match bw_child(st, s, c) {
+        Some(t) => { assert(w.rank[bw_child(st, s, c).unwrap() as int] == w.rank[s] + 1); }
+        None => { if s != 0 { lemma_fsteps_rank(st, st[s].fail as int, c); } }
+    }
+}
+// state after reading hay from s, and the number of automaton transitions (goto, fail or stay-at-root moves) taken on the way
+spec fn bw_run(st: Seq<State>, s: int, hay: Seq<u8>) -> int
+    decreases hay.len()
+{
+    if hay.len() == 0 { s } else { bw_run(st, bw_delta(st, s, hay[0]), hay.skip(1)) }
+}
+spec fn bw_moves(st: Seq<State>, s: int, hay: Seq<u8>) -> nat
+    decreases hay.len()
+{
+    if hay.len() == 0 { 0 } else { bw_fsteps(st, s, hay[0]) + 1 + bw_moves(st, bw_delta(st, s, hay[0]), hay.skip(1)) }
+}
+// the advertised linear running time: scanning n bytes from any live state s takes at most 2n + depth(s) transitions;
+// from the root (depth 0) at most 2n
+proof fn lemma_moves_bound(st: Seq<State>, s: int, hay: Seq<u8>)
+    requires bw_wf(st, false), bw_live(st, false, s),
+    ensures bw_moves(st, s, hay) + bw_rank(st, false, bw_run(st, s, hay)) <= bw_rank(st, false, s) + 2 * hay.len(),
+        bw_live(st, false, bw_run(st, s, hay)),
+    decreases hay.len(),
+{
+    if hay.len() > 0 {
+        lemma_fsteps_rank(st, s, hay[0]);
+        lemma_delta_live(st, s, hay[0]);
+        lemma_moves_bound(st, bw_delta(st, s, hay[0]), hay.skip(1));
+    }
+}
+proof fn lemma_moves_from_root(st: Seq<State>, hay: Seq<u8>)
+    requires bw_wf(st, false),
+    ensures bw_moves(st, 0, hay) <= 2 * hay.len(),
+{
+    lemma_root_live(st, false);
+    let w = bw_wit(st, false);
+    assert(da_ranked(st, false, w));
+    lemma_moves_bound(st, 0, hay);
+}
